@@ -176,6 +176,11 @@ theorem flushes_empty (c : Cfg) (fs : List Fail) : ∀ gs : List Group, gs.lengt
       simp only [List.length_cons] at h this ⊢
       omega
 
+/-- FlushAll / Close on an empty gate: nothing is composed, nothing sent, no error (so calling Close
+again, or after FlushAll, is harmless) -/
+theorem flushAll_empty_noop (c : Cfg) (f : Fail) : flushAllStep c [] f = ([], ⟨.ok, []⟩) := by
+  simp [flushAllStep]
+
 theorem close_is_flushAll (c : Cfg) (gs : List Group) (f : Fail) : step c gs (.close f) = step c gs (.flushAll f) := rfl
 
 /-- Non-vacuity: three open groups, two of them expired at the next event; FlushAll afterwards. -/
